@@ -15,7 +15,7 @@ META = ("S1 (every ordering-sensitive algorithm over the backing store receives 
 SETS = {"etl::static_set": True, "etl::flat_set": False, "etl::flat_multiset": False}
 
 
-META_EXTRA = 'S3 in both orderings left open by lower_bound; S7 (insert returns the found position when an equivalent element exists).'
+META_EXTRA = 'S2/S3 decided in both orderings left open by lower_bound; S7 (insert returns the found position when an equivalent element exists); PARAM.'
 META = (META[0] + " " + META_EXTRA, META[1])
 
 
